@@ -171,6 +171,7 @@ func staleVersion(text string) string {
 }
 
 func (f *fmtSession) format(text string) fmtResult {
+	opened := false
 	if f.conf.Where == "workspace" {
 		// the workspace holds an older saved version of the document: the file on
 		// disk (read by the workspace when the document is closed) differs from
@@ -182,14 +183,20 @@ func (f *fmtSession) format(text string) fmtResult {
 		if f.otherFirst {
 			// another document, outside the root's include tree, which declares its own
 			// (different) formats for the same commodities, is formatted first
+			// (both documents are open by then: opening a document refreshes the
+			// workspace and with it the caches a formatting run may have filled)
 			f.otherFirst = false
 			ou := wire.URI(filepath.Join(f.dir, "other.journal"))
 			f.s.DidOpen(ou, f.otherText)
+			f.s.DidOpen(f.uri, text)
 			f.s.Call("textDocument/formatting", `{"textDocument":{"uri":`+wire.Q(ou)+`},"options":{"tabSize":4,"insertSpaces":true}}`)
 			f.s.DidClose(ou)
+			opened = true
 		}
 	}
-	f.s.DidOpen(f.uri, text)
+	if !opened {
+		f.s.DidOpen(f.uri, text)
+	}
 	r := f.s.Call("textDocument/formatting", `{"textDocument":{"uri":`+wire.Q(f.uri)+`},"options":{"tabSize":4,"insertSpaces":true}}`)
 	diags := f.s.Client.Last(f.uri)
 	f.s.DidClose(f.uri)
